@@ -1072,9 +1072,16 @@ func (ce *commandEncoder) end() {
 // commandEncoder.end to release the lock.
 func (ce *commandEncoder) flush() {
 	if err := ce.Encoder.CRLF(); err != nil {
-		// TODO: consider stashing the error in Client to return it in future
-		// calls
-		ce.client.closeWithError(err)
+		// If the server refused a synchronizing literal with a tagged NO or
+		// BAD, the command has already completed with that error and nothing
+		// has been written after the literal header: the connection is still
+		// usable and the other pending commands are unaffected
+		var imapErr *imap.Error
+		if !errors.As(err, &imapErr) {
+			// TODO: consider stashing the error in Client to return it in
+			// future calls
+			ce.client.closeWithError(err)
+		}
 	}
 	ce.Encoder = nil
 }
